@@ -24,7 +24,7 @@ import (
 )
 
 const (
-	rxLong  = 2 * time.Second        // watchdog where the implementation's own state says "can proceed"
+	rxLong  = 3 * time.Second        // watchdog where the implementation's own state says "can proceed"
 	rxShort = 2 * time.Millisecond   // grace where the implementation's own state says "must block"
 	rxQuick = 200 * time.Microsecond // first look
 )
@@ -331,17 +331,21 @@ func (h *rxSeq) settle() {
 	}
 }
 
-func (h *rxSeq) pendReady() bool {
-	if !reactor.VerifAlive() {
-		return true
+// pendMayWake: did the operation just executed give the blocked call what it was waiting for?
+// Decided from what the operation did (never from a later look at the reactor, which the woken call
+// is changing at that very moment): 'F' a finish returned nil (a token was released), 'C' the
+// consumer received an item (run() can move on and free a slot of the input channel), 'Z' freeze.
+func (h *rxSeq) pendMayWake(what byte) bool {
+	if h.pend == nil {
+		return false
 	}
 	switch h.pend.stage {
 	case 1:
-		return h.closed || reactor.VerifTokensInUse() < h.capN
+		return what == 'F' || what == 'Z'
 	case 2:
-		return reactor.VerifInputLen() < h.capN
+		return what == 'C'
 	case 3:
-		return h.closed || reactor.VerifInputLen() < h.capN
+		return what == 'C' || what == 'Z'
 	}
 	return false
 }
@@ -376,11 +380,16 @@ func (h *rxSeq) pendDone(d time.Duration) {
 }
 
 // pollPending settles and returns the result of the earlier blocked call if it has returned in this step.
-func (h *rxSeq) pollPending() string {
+// what: see pendMayWake (0 = the operation cannot have woken it).
+func (h *rxSeq) pollPending(what byte) string {
 	h.settle()
 	if h.pend != nil {
-		if h.pendReady() {
+		if h.pendMayWake(what) {
 			h.pendDone(rxLong)
+			if h.pend != nil && h.pend.stage == 1 && what == 'F' {
+				// it got its token and is now blocked sending to a full input channel
+				h.pend.stage = 2
+			}
 		} else {
 			h.pendDone(rxQuick)
 		}
@@ -485,7 +494,11 @@ func execReactorSeq(in string) Result {
 		if got >= 0 && !hasInt(h.held, got) {
 			h.held = append(h.held, got)
 		}
-		p := h.pollPending()
+		var what byte
+		if got >= 0 {
+			what = 'C'
+		}
+		p := h.pollPending(what)
 		steps = append(steps, fmt.Sprintf("(SConsume, %s)", h.obs("", p, got)))
 		return got
 	}
@@ -547,7 +560,7 @@ func execReactorSeq(in string) Result {
 			h.closed = true
 			interesting = true
 			tags["has:freeze"] = true
-			p := h.pollPending()
+			p := h.pollPending('Z')
 			steps = append(steps, fmt.Sprintf("(SFreeze, %s)", h.obs("", p, -1)))
 			continue
 		case o == "S":
@@ -644,7 +657,11 @@ func execReactorSeq(in string) Result {
 				interesting = true
 				tags["rej:"+res] = true
 			}
-			pendRes = h.pollPending()
+			var what byte
+			if res == "ROk" && kind == 'F' {
+				what = 'F'
+			}
+			pendRes = h.pollPending(what)
 		}
 		steps = append(steps, fmt.Sprintf("(SCall (%s %d), %s)", opTerm, id, h.obs(res, pendRes, -1)))
 		if res == "RPanic" {
